@@ -115,6 +115,9 @@ fn std_setup(r: &mut Rng, init: u128, light: bool) -> (Value, Vec<PairSpec>) {
 /// amount relative to a reference magnitude
 fn rel_amount(r: &mut Rng, reference: u128) -> u128 {
     let refv = reference.max(1);
+    if r.chance(1, 60) {
+        return 0;
+    }
     match r.below(12) {
         0 => 1,
         1 => 2 + r.below(8) as u128,
@@ -183,7 +186,14 @@ fn some_user(r: &mut Rng) -> &'static str {
 }
 
 fn opt_to(r: &mut Rng) -> Value {
-    if r.chance(1, 3) { Value::String(some_user(r).to_string()) } else { nul() }
+    match r.below(30) {
+        0..=8 => Value::String(some_user(r).to_string()),
+        // a contract of the system as the receiver (the pair itself, its LP token, the router)
+        9 => Value::String("@pair0".to_string()),
+        10 => Value::String("@lp0".to_string()),
+        11 => Value::String("@router".to_string()),
+        _ => nul(),
+    }
 }
 
 /// a route through the registered pairs starting from a random asset (1..=4 hops)
